@@ -142,7 +142,7 @@ def captures(p0, p1, names):
 
 class C15:
     id = "C15"
-    cases = {"quick": 250, "thorough": 8000}
+    cases = {"quick": 110, "thorough": 8000}
     rule = ("CoreGen programs whose user-chosen names all have the form prefix+number (disjoint from everything the generator "
             "emits) and an injective renaming of ~70% of them into a pool of ordinary names and names that resemble internal or "
             "Python-special names (size, init, super, typing, abc, Optional, Union, Callable, NewType, ABC, abstractmethod, "
